@@ -6,11 +6,13 @@ def node_rx(n, key='unsigned long', db='db'):
     return r'^unodb::detail::basic_inode_%d<unodb::detail::basic_art_policy<%s, %s, unodb::%s, .*>::' % (n, key, SPAN, db)
 CLSN = {1: 4, 2: 16, 3: 48, 4: 256}
 CFG_TREE = (BASE, DEBUG, 'sse41-stats-ndebug-pause')
+SPEC_LOOPS = {'nv_load.0': 260, 'nv_load.1': 260, 'nv_wf_48_full.0': 50, 'nv_wf_48_full.1': 260, 'head_.0': 260, 'head_.1': 260, 'head_.2': 260}
+UNW = {0: 40, 1: 40, 2: 50, 3: 258, 4: 258}      # real-code loops: bounded by the node capacity handled per class; the 256-step spec loops get their own bound
 for kind in range(5):
     n = CLSN.get(kind, 4)
     job('tree.db64.get.k%d' % kind, ['C01', 'C16'], 'u_db', 'proofs/tree/get.c', defines=['KIND=%d' % kind, 'POL=DB64'],
         roots={'GET_INTERNAL': D64 + r'get_internal\(', 'NODE_FIND': node_rx(n) + r'find_child\(std::byte\)'}, stubs=ADT, cut=['GET_INTERNAL/while_2econd'],
-        cfgs=CFG_TREE, thorough_cfgs=ALL_CFGS, unwind=(258 if kind >= 3 else 40), floor=50, timeout=900,
+        cfgs=CFG_TREE, thorough_cfgs=ALL_CFGS, unwind=UNW[kind], unwindset_raw=SPEC_LOOPS, floor=50, timeout=900,
         under_contract=['db<uint64_t>::get_internal (descent step, node kind %d)' % kind],
         trusted=['definitional unfolding of the abstract map M over a finite acyclic tree (existence of the ghost answers of opaque subtrees)', 'node_ptr as an abstract data type (contract of tag_ptr/ptr/type discharged separately)'])
 
@@ -19,7 +21,7 @@ for kind in range(5):
     roots = {'INSERT_INTERNAL': D64 + r'insert_internal\(', 'NODE_FIND': node_rx(n) + r'find_child\(std::byte\)'}
     if kind == 3: roots['N48_ADD'] = node_rx(48) + r'add_to_nonfull\('
     job('tree.db64.insert.k%d' % kind, ['C01', 'C08', 'C10', 'C16'], 'u_db', 'proofs/tree/insert.c', defines=['KIND=%d' % kind, 'POL=DB64'], roots=roots, stubs=ADT,
-        cut=['INSERT_INTERNAL/while_2ebody'], cfgs=CFG_TREE, thorough_cfgs=ALL_CFGS, unwind=(258 if kind >= 2 else 40), unwindset=({'N48_ADD': 8} if kind == 3 else None),
+        cut=['INSERT_INTERNAL/while_2ebody'], cfgs=CFG_TREE, thorough_cfgs=ALL_CFGS, unwind=UNW[kind], unwindset_raw=SPEC_LOOPS, unwindset=({'N48_ADD': 8} if kind == 3 else None),
         floor=100, timeout=1800, mem_gb=20, objbits=14,
         under_contract=['db<uint64_t>::insert_internal (step at node kind %d)' % kind, 'impl_helpers::add_or_choose_subtree', 'make_db_leaf_ptr', 'basic_leaf ctor', 'inode_4::create (two-leaf and prefix-split ctors)', 'growing ctor of the next class', 'db_inode_deleter', 'db statistics updates'],
         trusted=['definitional unfolding of the abstract map M', 'node_ptr as an abstract data type', 'memcpy of symbolic length: witness-only pointwise contract'])
@@ -30,6 +32,6 @@ for kind in range(5):
     n = CLSN.get(kind, 4)
     roots = {'REMOVE_INTERNAL': D64 + r'remove_internal\(', 'NODE_FIND': node_rx(n) + r'find_child\(std::byte\)', 'SURV_FIND': node_rx(4) + r'find_child\(std::byte\)'}
     job('tree.db64.remove.k%d' % kind, ['C01', 'C08', 'C10', 'C16'], 'u_db', 'proofs/tree/remove.c', defines=['KIND=%d' % kind, 'POL=DB64', 'SURV=1'], roots=roots, stubs=ADT,
-        cut=['REMOVE_INTERNAL/while_2ebody'], cfgs=CFG_TREE, thorough_cfgs=ALL_CFGS, unwind=(258 if kind >= 2 else 40), floor=100, timeout=1800, mem_gb=20, objbits=14,
+        cut=['REMOVE_INTERNAL/while_2ebody'], cfgs=CFG_TREE, thorough_cfgs=ALL_CFGS, unwind=UNW[kind], unwindset_raw=SPEC_LOOPS, floor=100, timeout=1800, mem_gb=20, objbits=14,
         under_contract=['db<uint64_t>::remove_internal (step at node kind %d)' % kind, 'impl_helpers::remove_or_choose_subtree', 'basic_inode::remove', 'shrinking ctor of the next smaller class', 'basic_inode_4::leave_last_child', 'key_prefix::prepend', 'db_leaf_deleter / db_inode_deleter', 'db statistics updates'],
         trusted=['definitional unfolding of the abstract map M', 'node_ptr as an abstract data type'])
